@@ -85,7 +85,8 @@ func (f *Future[T]) PipeTo(forwarders vivid.ActorRefs) error {
 		f.mu.Unlock()
 		// closed 先于结果字段（message/err）置位：必须等待 done 关闭后再读取结果，否则可能转发零值
 		<-f.done
-		f.tellForwarders(forwarders, f.message, f.err)
+		// 与未完成时的登记路径一致：同一转发目标（以不同 Ref 对象多次给出）只投递一次
+		f.tellForwarders(forwarders.Unique(), f.message, f.err)
 		return nil
 	}
 	f.forwarders = append(f.forwarders, forwarders...).Unique()
